@@ -96,6 +96,11 @@ func (p *proxy) Set(states am.S, args am.A) am.Result {
 	return p.Api.Set(states, args)
 }
 
+// remote is a proxy that is not a local machine (what a NetworkMachine answers).
+type remote struct{ *proxy }
+
+func (r *remote) IsLocal() bool { return false }
+
 type Case struct {
 	Schema   gen.Schema   `json:"schema"`
 	Bind     string       `json:"bind"` // Bind BindMany BindReady BindErr BindConnected BindAny Flat
@@ -114,6 +119,9 @@ type Case struct {
 	// SlowTargetUs: negotiation handlers of the piped target states take this long (no veto): widens the
 	// window in which a forwarded mutation has been popped from the target's queue but is not applied yet
 	SlowTargetUs int `json:"slow_target_us,omitempty"`
+	// RemoteFlat (Bind = Flat): the flat pipes forward to a target that is not a local machine
+	// (IsLocal() false, like a NetworkMachine), with the proxy's per-call delays
+	RemoteFlat bool `json:"remote_flat,omitempty"`
 }
 
 func (c Case) key() string { b, _ := json.Marshal(c); return string(b) }
@@ -233,9 +241,13 @@ func runCase(c Case, st *ev.Stats) error {
 		}
 	case "Flat":
 		fin := map[string]am.HandlerFinal{}
+		var flatTarget am.Api = tgt
+		if c.RemoteFlat {
+			flatTarget = &remote{px}
+		}
 		for _, p := range pairs {
-			fin[p.s+am.SuffixState] = ampipe.AddFlat(src, tgt, p.s, p.t)
-			fin[p.s+am.SuffixEnd] = ampipe.RemoveFlat(src, tgt, p.s, p.t)
+			fin[p.s+am.SuffixState] = ampipe.AddFlat(src, flatTarget, p.s, p.t)
+			fin[p.s+am.SuffixEnd] = ampipe.RemoveFlat(src, flatTarget, p.s, p.t)
 		}
 		if _, err := src.HandlersBindMaps(nil, fin); err != nil {
 			return err
@@ -435,6 +447,9 @@ func runCase(c Case, st *ev.Stats) error {
 	if st != nil {
 		st.Eval(1)
 		st.Class("bind:" + c.Bind)
+		if c.RemoteFlat {
+			st.Class("flat pipes to a non-local target")
+		}
 		maxT := 0
 		for _, n := range toggles {
 			if n > maxT {
@@ -528,6 +543,7 @@ func genCase(t *rapid.T) Case {
 	if c.Bind != "BindAny" && c.Bind != "BindErr" {
 		c.SlowTargetUs = rapid.SampledFrom([]int{0, 200, 1000, 1000}).Draw(t, "slowTargetUs")
 	}
+	c.RemoteFlat = c.Bind == "Flat" && rapid.Bool().Draw(t, "remoteFlat")
 	nd := rapid.IntRange(0, 4).Draw(t, "delays")
 	for i := 0; i < nd; i++ {
 		c.Delays = append(c.Delays, rapid.SampledFrom([]int{0, 0, 50, 300, 1500}).Draw(t, "delay"))
@@ -558,11 +574,20 @@ func TestReplay(t *testing.T) {
 		t.Fatal(err)
 	}
 	var w struct {
-		Kind string `json:"kind"`
-		Case Case   `json:"case"`
+		Kind    string `json:"kind"`
+		Case    Case   `json:"case"`
+		Variant string `json:"variant"`
 	}
 	if err := json.Unmarshal(b, &w); err != nil {
 		t.Fatal(err)
+	}
+	if w.Kind == "held" {
+		for _, v := range heldVariants() {
+			if v.name == w.Variant {
+				runHeld(t, v, ev.G())
+			}
+		}
+		return
 	}
 	for i := 0; i < 50; i++ {
 		if err := runCase(w.Case, nil); err != nil {
